@@ -297,4 +297,29 @@ Section Keyed.
   Definition keyed_par (k : nat) (seed : N) (partitions : nat) (data : list (K * T))
     : list (K * T) :=
     flatten_keyed (keyed_par_vec k seed partitions data).
+
+  (* ---- the same per-key sample when it is NOT collected directly but feeds a join.
+     joins.rs: chain_from captures the input chain as it was built (no planner pass), so the
+     runner (run_subplan_seq / run_subplan_par) executes the GroupByKey node and then the
+     CombineValues node with its group-wise local step `local_groups`. *)
+  (* group_by_key `local`: for (k, v) in partition: m.entry(k).or_default().push(v) *)
+  Definition gbk_local (rows : list (K * T)) : list (K * list T) :=
+    fold_left (fun m kv => upsert (fst kv) [] (fun vs => vs ++ [snd kv]) m) rows [].
+  (* group_by_key `merge`: for every partition map, for (k, vs) in it:
+       acc.entry(k).or_default().extend(vs) *)
+  Definition gbk_merge (maps : list (list (K * list T))) : list (K * list T) :=
+    fold_left (fun acc m =>
+                 fold_left (fun acc kvs => upsert (fst kvs) [] (fun vs => vs ++ snd kvs) acc) m acc)
+              maps [].
+  (* combine_values_lifted `local_groups`: for (k, vs) in partition:
+       merge(map.entry(k).or_insert_with(create), build_from_group(&vs)) *)
+  Definition cv_local_groups (k : nat) (seed : N) (groups : list (K * list T))
+    : list (K * pracc T) :=
+    fold_left (fun m g => upsert (fst g) (create k seed)
+                                 (fun a => merge a (local k seed (snd g))) m) groups [].
+  (* GroupByKey node: local per partition, one merge; CombineValues node on the single resulting
+     partition: local_groups, then `merge` of that one map *)
+  Definition keyed_unfused_parts (k : nat) (seed : N) (parts : list (list (K * T)))
+    : list (K * list T) :=
+    cv_merge k seed [cv_local_groups k seed (gbk_merge (map gbk_local parts))].
 End Keyed.
